@@ -56,7 +56,7 @@ func faultRun(t *rapid.T) {
 }
 
 func faultProbeRun(t *rapid.T) {
-	p := genProgram(t, genOpts{probes: true, noise: true, probePct: 35})
+	p := genProgram(t, genOpts{probes: true, noise: true, probePct: 35, mapRegions: true})
 	mp := simrt.MapPolicy(rapid.IntRange(0, 3).Draw(t, "maporder"))
 	mseed := rapid.Uint64().Draw(t, "mapseed")
 	count("maporder_"+mp.String(), 1)
